@@ -97,7 +97,13 @@ def factory(kind, spec):
            "variant": VariantInterval(spec["vpos"], spec["vpos"] + 1, "GG", "insertion", parent_or_seq_chunk_parent=par)}
     quals = {"note": ["n1", "n2"], "k": ["v"]}
     if kind == "location":
-        plain = Parent(id="chr", sequence=Sequence(R, Alphabet.NT_EXTENDED_GAPPED, id="chr", type=SequenceType.CHROMOSOME))
+        if spec.get("deep"):  # contig -> chromosome -> assembly
+            plain = Parent(id="ctg", sequence=Sequence(R, Alphabet.NT_EXTENDED_GAPPED, id="ctg", type="contig"),
+                           parent=Parent(id="chr", sequence_type="chromosome",
+                                         parent=Parent(id="asm", sequence_type="assembly")))
+        else:
+            plain = Parent(id="chr", sequence=Sequence(R, Alphabet.NT_EXTENDED_GAPPED, id="chr",
+                                                       type=SequenceType.CHROMOSOME))
         lst = spec.get("loc_strand", spec["strand"])
         obj = E.make_loc(spec["blocks"], lst, plain)
         ops["other"] = E.make_loc(spec["other"], lst, plain)
@@ -163,6 +169,9 @@ def actions(kind):
             "scan_blocks": lambda o, p: list(o.scan_blocks()), "hash": lambda o, p: hash(o), "str": lambda o, p: str(o),
             "rel_to_parent_0": lambda o, p: o.relative_to_parent_pos(0),
             "parent_to_rel_first": lambda o, p: o.parent_to_relative_pos(first_pos(o)),
+            "first_ancestor_asm": lambda o, p: o.first_ancestor_of_type("assembly"),
+            "has_ancestor_asm": lambda o, p: o.has_ancestor_of_type("assembly"),
+            "parent_depth": lambda o, p: (lambda f: f(f, o.parent))(lambda f, q: 0 if q is None else 1 + f(f, q.parent)),
             "first_ancestor": lambda o, p: o.first_ancestor_of_type("chromosome"),
             "has_ancestor": lambda o, p: o.has_ancestor_of_type("chromosome"),
             "union_other": lambda o, p: o.union(p["other"]), "intersection_other": lambda o, p: o.intersection(p["other"]),
@@ -321,7 +330,7 @@ def _replay(args):
     rnd = random.Random(seed)
     acts = actions(kind)
     ev = []
-    modes = ["loc-any", "loc-single", "loc-unstranded"] if kind == "location" else [None] if kind == "sequence" else \
+    modes = ["loc-any", "loc-single", "loc-unstranded", "loc-deep"] if kind == "location" else [None] if kind == "sequence" else \
         ["none", "enclosing", "cutting", "cutting", "cutting"]
     for h, mode in [(h, m) for h in hists for m in modes]:
         sp = _spec(rnd, mode)
@@ -329,6 +338,20 @@ def _replay(args):
             sp = _spec(rnd, mode)
             if not sp["cds"]:
                 continue
+        if mode == "loc-deep":
+            # the object lives under chr -> asm; an UNRELATED, shallower hierarchy with the same ids (chr without asm) is
+            # built first, so that the process-wide Parent cache is warm with a look-alike when X is constructed
+            sp["deep"] = True
+            try:
+                from inscripta.biocantor.parent import SequenceType
+                from inscripta.biocantor.sequence import Sequence
+                from inscripta.biocantor.sequence.alphabet import Alphabet
+
+                shadow = Parent(id="ctg", sequence=Sequence(sp["root"], Alphabet.NT_EXTENDED_GAPPED, id="ctg", type="contig"),
+                                parent=Parent(id="chr", sequence_type="chromosome"))
+                E.make_loc(sp["blocks"], sp["strand"], shadow)
+            except Exception:
+                pass
         try:
             X, ops = factory(kind, sp)
         except Exception:
